@@ -684,6 +684,43 @@ class ListCell(Cell):
     return z3.Contains(self.seq, z3.Unit(self.codec.enc(item)))
 
 
+class ArrayCell(Cell):
+  """A 1-D numpy array used with point reads / writes: z3 Array Int->Int plus its length."""
+
+  def __init__(self, arr, n, owner='local', label=''):
+    self.arr, self.n, self.owner, self.label = arr, n, owner, label
+
+  def length(self, ctx, ref):
+    return self.n
+
+  def _idx(self, ctx, idx, what):
+    i = to_z3(idx)
+    n = to_z3(self.n)
+    ctx.oblige(f'index.{what}', z3.And(i >= -n, i < n), kind='definedness', detail=f'IndexError: {what}')
+    return z3.If(i < 0, i + n, i)
+
+  def getitem(self, ctx, ref, idx):
+    if isinstance(idx, (SliceV, Ref)):
+      raise Unsupported('slice / fancy read of an ArrayCell')
+    return z3.Select(self.arr, self._idx(ctx, idx, 'load'))
+
+  def setitem(self, ctx, ref, idx, value):
+    self.check_write(ctx, ref, 'setitem')
+    if isinstance(idx, (SliceV, Ref)):
+      raise Unsupported('slice store into an ArrayCell')
+    c = self.clone()
+    c.arr = z3.Store(self.arr, self._idx(ctx, idx, 'store'), to_z3(value))
+    ctx.set_cell(ref.addr, c)
+
+  def havoc(self, ctx, base):
+    c = self.clone()
+    c.arr = ctx.fresh(base, self.arr.sort())
+    return c
+
+  def term(self, ctx):
+    return self.arr
+
+
 class PyListCell(Cell):
   """A list with concrete structure (python list of engine values)."""
 
